@@ -87,7 +87,7 @@ def corpus():
         per = {}
         for g in K.GROUPS:
             for partner in ([False, True] if g in K.PARTNER else [False]):
-                cs = K.group_configs(g, sh, 'small', partner)
+                cs = K.group_configs(g, sh, 'full' if (partner and g in ('PartialOrd', 'PartialEq') and len(sh.positions()) <= 2) else 'small', partner)
                 used = {g} | ({K.PARTNER[g]} if partner else set())
                 for c in cs:
                     out.append((frozenset(used), K.render(sh, c)))
